@@ -315,12 +315,20 @@ Qed.
 Definition blk_ok (b : blk Hdr V) : Prop :=
   is_zero (memo _ _ b) = true \/ memo _ _ b = f (content _ _ b).
 
-(** every supplied precalculated hash is the hash of the content at that moment *)
+(** premises of the operations: a supplied precalculated hash is the hash of the content it is attached to
+    (deserialisation may also pass the all-zero default = no hash); an assigned-from block is itself consistent *)
+Definition bop_pre (o : bop Hdr V) (b : blk Hdr V) : Prop :=
+  match o with
+  | BPrecalc _ _ v => v = f (content _ _ b)
+  | BDeser _ _ h v => is_zero v = true \/ v = f h
+  | BAssign _ _ src => blk_ok src
+  | _ => True
+  end.
+
 Fixpoint bops_ok (ops : list (bop Hdr V)) (b : blk Hdr V) : Prop :=
   match ops with
   | [] => True
-  | o :: r => (match o with BPrecalc _ _ v => v = f (content _ _ b) | _ => True end) /\
-              bops_ok r (snd (blk_step f o b))
+  | o :: r => bop_pre o b /\ bops_ok r (snd (blk_step f o b))
   end.
 
 Fixpoint answers_ok (ops : list (bop Hdr V)) (b : blk Hdr V) : Prop :=
@@ -331,7 +339,7 @@ Fixpoint answers_ok (ops : list (bop Hdr V)) (b : blk Hdr V) : Prop :=
   end.
 
 Lemma blk_step_ok : forall o b,
-  blk_ok b -> (match o with BPrecalc _ _ v => v = f (content _ _ b) | _ => True end) ->
+  blk_ok b -> bop_pre o b ->
   blk_ok (snd (blk_step f o b)) /\
   (match fst (blk_step f o b) with Some v => v = f (content _ _ b) | None => True end).
 Proof.
@@ -340,8 +348,17 @@ Proof.
   - destruct (is_zero (memo _ _ b)) eqn:Z.
     + split; auto. right; reflexivity.
     + destruct OK as [OK | OK]; [congruence |]. split; auto. right. simpl. auto.
-  - split; auto. right. simpl. auto.
+  - split; [right; exact P | exact I].
+  - split; [exact P | exact I].
+  - split; [exact P | exact I].
 Qed.
+
+(** deserialisation into an existing object without a precalculated hash leaves the memo empty, with one the memo
+    is the supplied hash - whatever the object held before *)
+Lemma deser_resets_memo_lemma : forall hf b h v,
+  let b' := snd (CacheDefs.blk_step Hdr V is_zero zero hf (BDeser _ _ h v) b) in
+  content _ _ b' = h /\ memo _ _ b' = v /\ ((is_zero v = true \/ v = f h) -> blk_ok b').
+Proof. intros. simpl. repeat split; auto. Qed.
 
 Lemma memo_transparent_lemma : forall ops b, blk_ok b -> bops_ok ops b -> answers_ok ops b.
 Proof.
